@@ -28,6 +28,8 @@ CONSTANTS
   MatchMax,    \* MATCH_LEN_MAX
   Reserve,     \* reserve_size of get_buf_size
   Align,       \* MOVE_BLOCK_ALIGN
+  PosAlign,    \* 2^max(pb, lp): pos_state / literal position bits are taken from the BUFFER position (lz.get_pos()), so
+               \* every window move must be a multiple of it or encoder and decoder disagree about the position
   RawMax,      \* lzma2_writer.rs COMPRESSED_SIZE_MAX
   CLimit,      \* a chunk can hit the compressed-size limit once this many bytes are in it
   RawCap,      \* largest uncompressed_size (before adding the read-ahead) of a chunk that did not compress
@@ -39,6 +41,9 @@ CONSTANTS
   Writer,      \* "lzma2" | "lzma1"
   PassExtra,   \* variant, see above
   MoveKeepsPending,    \* variant: move_window also retains the history of the positions still pending (FALSE = as found)
+  NiceLen,             \* nice_len option (<= MatchMax)
+  KeepAfterUsesNice,   \* variant: keep_size_after = extra_size_after + nice_len (regressed) instead of + match_len_max (FALSE = as built)
+  MaskAfterPending,    \* variant: the alignment mask is applied after pending_size was subtracted (TRUE = as built) or before
   PendingAssertStrict, \* variant: process_pending_bytes asserts pending_size < old (TRUE = as found) instead of <=
   ChunkSize,   \* LZMA2Options::chunk_size clamped to >= Dict; 0 = none
   PresetLen,   \* bytes of preset dictionary copied by set_preset_dict (0 = none)
@@ -50,7 +55,7 @@ Min(a, b) == IF a <= b THEN a ELSE b
 
 ExtraBefore == IF PassExtra /\ Writer = "lzma2" THEN Max(ModeBefore, Max(RawMax - Dict, 0)) ELSE ModeBefore
 KeepBefore == ExtraBefore + Dict
-KeepAfter  == ExtraAfter + MatchMax
+KeepAfter  == ExtraAfter + (IF KeepAfterUsesNice THEN NiceLen ELSE MatchMax)
 BufSize    == KeepBefore + KeepAfter + Reserve
 
 VARIABLES
@@ -135,8 +140,12 @@ Fill ==
   /\ pc = "loop" /\ ~ShouldIndep
   /\ LET s0 == St
          moved == s0.rp >= BufSize - KeepAfter
-         off0 == s0.rp + 1 - KeepBefore - (IF MoveKeepsPending THEN s0.pe ELSE 0)
-         off == IF moved THEN off0 - (off0 % Align) ELSE 0          \* & MOVE_BLOCK_ALIGN_MASK
+         keepPe == IF MoveKeepsPending THEN s0.pe ELSE 0
+         off0 == s0.rp + 1 - KeepBefore - keepPe
+         offA == s0.rp + 1 - KeepBefore
+         off == IF ~moved THEN 0
+                ELSE IF MaskAfterPending THEN off0 - (off0 % Align)          \* (.. - pending_size) & MOVE_BLOCK_ALIGN_MASK
+                ELSE (offA - (offA % Align)) - keepPe
          s1 == [s0 EXCEPT !.rp = s0.rp - off, !.rl = s0.rl - off, !.wp = s0.wp - off]
          len == Min(left, BufSize - s1.wp)
          wp2 == s1.wp + len
@@ -283,6 +292,7 @@ FillNew ==
 WillMove == readPos >= BufSize - KeepAfter
 FillMove == WillMove /\ Fill
 FillStay == ~WillMove /\ Fill
+FillMovePending == WillMove /\ pending > 0 /\ Fill      \* the window moves while positions are still pending (after a flush)
 CloseRaw == pc # "idle" /\ ChunkClose("raw")
 CloseLzma == pc # "idle" /\ ChunkClose("lzma")
 FlushCall == pc = "idle" /\ CallFlush(FALSE)
@@ -290,7 +300,7 @@ FinishCall == pc = "idle" /\ CallFlush(TRUE)
 FlushPending == pending > 0 /\ readPos < writePos - 1 /\ FlushCall   \* process_pending_bytes takes its branch in set_flushing
 Next ==
   \/ (\E n \in 1..MaxWrite : CallWrite(n))
-  \/ FillMove \/ FillStay \/ Encode \/ EncodeStall \/ Finish1Done
+  \/ FillMove \/ FillStay \/ FillMovePending \/ Encode \/ EncodeStall \/ Finish1Done
   \/ CloseLzma \/ CloseRaw
   \/ FlushCall \/ FinishCall
   \/ StartIndep \/ IndepNew \/ FillNew
@@ -303,6 +313,8 @@ CopyInRange        == bad # "copy_before_buffer"            \* C01: raw chunk st
 MatchSourceInRange == bad \notin {"match_source_before_buffer", "pending_lookback_before_buffer"}   \* C15 (C01)
 LookAheadGate      == bad # "lookahead_gate"                 \* C13 / C07
 MoveInRange        == bad # "move_offset_negative"
+\* C01: buffer positions and stream positions agree modulo 2^pb / 2^lp after any number of window moves
+PosStateAligned    == base % PosAlign = 0
 NoEmptyChunk       == bad # "empty_chunk"
 PendingAssertHolds == bad # "pending_assert"                 \* C01: the crate's own debug assertion
 
